@@ -465,3 +465,7 @@ def run(F, rep):
     import c17
     if not getattr(rep, 'nested', False):
         core.borrow(F, rep, c17, only={'C17.N1', 'C17.N2', 'C17.N3'})
+    # ... and with C20: the order in which the generated code computes things follows the equations' dependencies, which are resolved through a map with one key per variable
+    import c20
+    if not getattr(rep, 'nested', False):
+        core.borrow(F, rep, c20, only={'C20.D1'})
